@@ -16,44 +16,44 @@ type secSpec struct {
 }
 
 type peSpec struct {
-	Plus      bool      `json:"plus"`
-	Lfanew    int       `json:"lfanew"`
-	Machine   int       `json:"machine"`
-	OptSize   int       `json:"optsize"`
-	NumRva    int       `json:"numrva"`
-	OptMagic  int       `json:"optmagic"`
-	FileAlign int       `json:"filealign"`
-	HdrExtra  int       `json:"hdrextra"`  // extra zero padding inside SizeOfHeaders (in units of bytes, after alignment)
-	HdrSize   int       `json:"hdrsize"`   // SizeOfHeaders written (0 = computed)
-	Gap       int       `json:"gap"`       // bytes between the end of the headers and the first section
-	Secs      []secSpec `json:"secs"`      // section table
-	AlignMid  bool      `json:"alignmid"`  // sections other than the last occupy align(size) bytes in the file (table keeps raw size)
-	Overlay   int       `json:"overlay"`   // bytes after the last section
-	CertPad   int       `json:"certpad"`   // zero bytes between payload and certificate table (-1: pad to 8)
-	Certs     [][]byte  `json:"-"`         // certificate table entries (blobs); nil = unsigned
-	CertLenAdj int      `json:"certlenadj"` // added to the dwLength of the first entry
-	Trailing  int       `json:"trailing"`  // garbage bytes after the certificate table
-	DDVaAdj   int       `json:"ddvaadj"`   // added to the directory entry's address
-	DDSizeAdj int       `json:"ddsizeadj"` // added to the directory entry's size
-	Truncate  int       `json:"truncate"`  // if >0: cut the file to this length
-	PEAt64    bool      `json:"peat64"`    // (lfanew < 64) place the NT headers at offset 64 regardless of lfanew
-	Shadow    bool      `json:"shadow"`    // (with PEAt64) also write the fields findSignatures reads of a second NT header at lfanew
-	NoMZ      bool      `json:"nomz"`
-	NoPE      bool      `json:"nope"`
+	Plus       bool      `json:"plus"`
+	Lfanew     int       `json:"lfanew"`
+	Machine    int       `json:"machine"`
+	OptSize    int       `json:"optsize"`
+	NumRva     int       `json:"numrva"`
+	OptMagic   int       `json:"optmagic"`
+	FileAlign  int       `json:"filealign"`
+	HdrExtra   int       `json:"hdrextra"`   // extra zero padding inside SizeOfHeaders (in units of bytes, after alignment)
+	HdrSize    int       `json:"hdrsize"`    // SizeOfHeaders written (0 = computed)
+	Gap        int       `json:"gap"`        // bytes between the end of the headers and the first section
+	Secs       []secSpec `json:"secs"`       // section table
+	AlignMid   bool      `json:"alignmid"`   // sections other than the last occupy align(size) bytes in the file (table keeps raw size)
+	Overlay    int       `json:"overlay"`    // bytes after the last section
+	CertPad    int       `json:"certpad"`    // zero bytes between payload and certificate table (-1: pad to 8)
+	Certs      [][]byte  `json:"-"`          // certificate table entries (blobs); nil = unsigned
+	CertLenAdj int       `json:"certlenadj"` // added to the dwLength of the first entry
+	Trailing   int       `json:"trailing"`   // garbage bytes after the certificate table
+	DDVaAdj    int       `json:"ddvaadj"`    // added to the directory entry's address
+	DDSizeAdj  int       `json:"ddsizeadj"`  // added to the directory entry's size
+	Truncate   int       `json:"truncate"`   // if >0: cut the file to this length
+	PEAt64     bool      `json:"peat64"`     // (lfanew < 64) place the NT headers at offset 64 regardless of lfanew
+	Shadow     bool      `json:"shadow"`     // (with PEAt64) also write the fields findSignatures reads of a second NT header at lfanew
+	NoMZ       bool      `json:"nomz"`
+	NoPE       bool      `json:"nope"`
 }
 
 // layout facts the generator knows about the image it wrote (the oracle's ground truth for generated files)
 type peLayout struct {
-	HdrPos   int      `json:"hdrpos"` // offset of "PE\0\0"
-	Cksum    int      `json:"cksum"`
-	DD4      int      `json:"dd4"`
-	SecTbl   int      `json:"sectbl"`
-	SecTblEnd int     `json:"sectblend"`
-	HdrEnd   int      `json:"hdrend"`
-	Secs     [][2]int `json:"secs"`    // (offset, length actually occupied in file) per non-empty section
-	PayloadEnd int    `json:"payend"`  // end of sections + overlay
-	CertAt   int      `json:"certat"`
-	CertLen  int      `json:"certlen"`
+	HdrPos     int      `json:"hdrpos"` // offset of "PE\0\0"
+	Cksum      int      `json:"cksum"`
+	DD4        int      `json:"dd4"`
+	SecTbl     int      `json:"sectbl"`
+	SecTblEnd  int      `json:"sectblend"`
+	HdrEnd     int      `json:"hdrend"`
+	Secs       [][2]int `json:"secs"`   // (offset, length actually occupied in file) per non-empty section
+	PayloadEnd int      `json:"payend"` // end of sections + overlay
+	CertAt     int      `json:"certat"`
+	CertLen    int      `json:"certlen"`
 }
 
 func alignUp(n, a int) int {
